@@ -2,6 +2,7 @@ import Mdns.Driver.Sim
 import Mdns.Driver.MonClient
 import Mdns.Driver.MonShutdown
 import Mdns.Driver.C15
+import Mdns.Driver.MonResponder
 /-
   Dispatch of the history monitors by property tag (`sim <TAG> …` / `sim2 <TAG> …`).
 -/
@@ -36,6 +37,9 @@ def monitorTag (prop : String) (script : List Cmd) (obs : List Obs) : Option Str
                refineD24 iters (Sim.monitorC13 script iters)
     | "C14" => MonShutdown.monitorBurst script iters 1
     | "C15" => C15.monitorCrash script obs
+    | "C07" => (MonResponder.monitorProbed script iters 0) <|> (MonResponder.monitorAnnounced script iters 0)
+    | "C09" => MonResponder.monitorUnregister script iters 0
+    | "C06" => (MonResponder.monitorAnswers script iters 0) <|> (MonResponder.monitorProbed script iters 0 true)
     | "C20" => (MonClient.monitorC20 script iters 0) <|> (MonClient.monitorC20Unrequested script iters 0)
     | _ => none
 
